@@ -23,6 +23,7 @@ import Proofs.VdrVal
 import Martian.VdrAll
 import Proofs.VdrAll
 import Proofs.VdrDone
+import Proofs.VdrHyp
 import Martian.VdrEval
 import Proofs.VdrEval
 
@@ -547,26 +548,23 @@ example :
 
 
 /-- the hypotheses of `kill_safe` are satisfiable -/
-example : CfgOK exCfg exSt ∧ Fresh exSt ∧ exCfg.volatile = true := by
-  refine ⟨⟨?_, ?_, ?_, ⟨rfl, rfl⟩⟩, ⟨rfl, rfl⟩, rfl⟩
-  · intro a h
-    exact h
-  · intro a f hf
-    obtain ⟨p, hp, hfp⟩ := mem_lookup_getD hf
-    simp [exCfg] at hp
-    rcases hp with rfl | rfl
-    · simp at hfp; subst hfp
-      exact clean_of_getLast (x := 't') (by decide) (by decide)
-    · simp at hfp; subst hfp
-      exact clean_of_getLast (x := 't') (by decide) (by decide)
-  · intro d hd
-    simp [exSt] at hd
-    rcases hd with rfl | rfl | rfl | rfl | rfl
-    · exact clean_of_getLast (x := 't') (by decide) (by decide)
-    · exact clean_of_getLast (x := 'b') (by decide) (by decide)
-    · exact clean_of_getLast (x := 't') (by decide) (by decide)
-    · exact clean_of_getLast (x := 'h') (by decide) (by decide)
-    · exact clean_of_getLast (x := 't') (by decide) (by decide)
+example : CfgOK exCfg exSt ∧ Fresh exSt ∧ exCfg.volatile = true :=
+  ⟨cfgOKB_sound (by decide), ⟨rfl, rfl⟩, rfl⟩
+
+/-- a raw spelling with a trailing separator next to its cleaned form is admitted by `CfgOK`
+(what `getLogicalFileNames` returns for an output spelled `…/outdir/`), and the directory is
+kept while the consumer has not completed -/
+example :
+    let c : Cfg := { volatile := true, strict := true, splits := false
+                     argNames := [("d", ["/p/files/outdir/".toList])]
+                     argFiles := [("d", ["/p/files/outdir/".toList, "/p/files/outdir".toList])]
+                     initArgs := [("d", [some "C"])], initPost := [("C", ["d"])] }
+    let s : St := { fileArgs := [("d", [some "C"])], postNodes := [("C", ["d"])],
+                    disk := [⟨"/p/files/outdir".toList, 4096, .out, []⟩, ⟨"/p/files/outdir/x".toList, 1, .out, []⟩,
+                             ⟨"/p/files/junk".toList, 2, .out, []⟩] }
+    cfgOKB c s = true ∧
+    (run c s [.removeEmpty, .cacheMap, .kill]).disk.map (·.path) = ["/p/files/outdir".toList, "/p/files/outdir/x".toList] := by
+  decide
 
 /-- … and the conclusion is not vacuous: while `C` runs a kill removes the
 scratch file only; once `C` is done, `b`'s file and directory go as well and
